@@ -213,6 +213,8 @@ func checkC05(c *Ctx, r *Report) {
 		r.unresolved("C05.load", "root module", err.Error())
 		return
 	}
+	r.rule("C05.R4", "the S3 client reports an upload as successful only when it was (what 'uploaded' in R1 rests on)", 3)
+	checkS3ClientErrors(m, r, "C05.R4")
 	r.rule("C05.R1", "the SegmentArtifact passed to l.onFlush has a LastOffset that does not depend on nextOffset: it is the uploaded artifact (call dominated by err(uploadFlush)==nil) or built from the last l.segments entry", 2)
 	r.rule("C05.R2", "who-may-call Store.UpdateOffsets in cmd/broker: the onFlush closure given to NewPartitionLog and the post-restore sync in getPartitionLog (dominated by lastOffset >= nextOffset)", 2)
 	r.rule("C05.R3", "each Store.UpdateOffsets implementation writes only after comparing with the stored value (in-memory: lookup of the same map; etcd: Txn with If)", 2)
